@@ -103,7 +103,7 @@ Proof.
     unfold prim_reset, accessible in *. rewrite sys_madvise_rw. exact Ha.
 Qed.
 
-(* mask_sound_purge (the statement of Proofs/OsOpen.v, unchanged) *)
+(* mask_sound_purge (the statement that was open in Proofs/OsOpen.v, unchanged) *)
 Theorem mask_sound_purge o s p size :
   seg_ok2 s -> is_huge s = false -> mask_sound o s ->
   mask_sound (fst (segment_purge cfg oracle o s p size)) (snd (segment_purge cfg oracle o s p size)).
